@@ -511,6 +511,8 @@ def env_family(seed, n, maxlen=3, budget=6000):
                   guard=(kind == "arg" and rnd.random() < 0.3))
         if len(out) % 4 == 3:
             it["env2"] = "BPAF_VERIF_X"         # a second variable, consulted when the first one is not set
+        if len(out) % 7 == 5:
+            it["shorts"], it["longs"], it["letters"], it["lchars"] = [], [], [], []       # an item that has a variable and no name at all
         others = [rnd.choice([sw("o1", "-o"), ar("o1", "opt", "int", "-o", env="BPAF_VERIF_W"), rf("o1", "count", "-o")])]
         named = [it] + others if rnd.random() < 0.6 else others + [it]
         shape = len(out) % 3
